@@ -106,7 +106,7 @@ func (r routecmd) build() []string {
 			// (e.g. a tag with a quote or an invalid weight) is dropped on
 			// its own. Otherwise it would make the configuration of all
 			// other services fail.
-			if err := checkRouteCmd(cfg, name, svctags, ropts); err != nil {
+			if err := checkRouteCmd(cfg, name, route, dst, svctags, ropts); err != nil {
 				log.Printf("[WARN] consul: Skipping route for service %q with tag %q: %s", name, tag, err)
 				continue
 			}
@@ -120,7 +120,7 @@ func (r routecmd) build() []string {
 // checkRouteCmd verifies that the generated route command is accepted by the
 // route command parser and that it denotes the service, tags and options it
 // was generated from.
-func checkRouteCmd(cfg, name string, tags, opts []string) error {
+func checkRouteCmd(cfg, name, src, dst string, tags, opts []string) error {
 	defs, err := route.Parse(bytes.NewBufferString(cfg))
 	if err != nil {
 		return err
@@ -131,6 +131,9 @@ func checkRouteCmd(cfg, name string, tags, opts []string) error {
 	d := defs[0]
 	if d.Service != name {
 		return fmt.Errorf("service name %q cannot be expressed in a route command", name)
+	}
+	if d.Src != src || d.Dst != dst {
+		return fmt.Errorf("prefix %q or destination %q cannot be expressed in a route command", src, dst)
 	}
 	if strings.Join(d.Tags, ",") != strings.Join(tags, ",") {
 		return fmt.Errorf("tags %q cannot be expressed in a route command", tags)
